@@ -11,6 +11,7 @@
    out:  last=<header LastIndex> idx=… kvs=… tombs=… sess=… sc=<node;check;session,…> peer=… tb=… stream=<kind:count,…> usage=<count;index of usage row "kvs", or ->
          computed as  restore (snapshot s)  by the model functions the theorems are about. -/
 import CV.Snap
+import CV.SnapG
 import CV.Store.Snap
 namespace CV.Engine.C02
 open CV CV.Snap
@@ -135,6 +136,45 @@ def stepStore (n v c x k t q i : String) : String :=
 
 end StoreTie
 
+/-! ### `rtg`: the plain persisted tables (CV.SnapG)
+
+   op:   rtg <index rows> <rows of the tables persisted before the index table> <rows of the tables persisted after it>
+           row   table;key;payload;create;modify;aux(0|1)      table = memdb table name (CV.SnapG.tables)
+   out:  last=… idx=… rows=… late=… kinds=<record kinds of the model's stream, consecutive repetitions dropped>
+         of SnapG.restore (SnapG.snapshot s). -/
+section TablesTie
+
+def tabOf (name : String) : Option Nat :=
+  let i := SnapG.tables.findIdx (·.name == name)
+  if i < SnapG.tables.length then some i else none
+
+def tabName (t : Nat) : String :=
+  match SnapG.tables[t]? with
+  | some d => d.name
+  | none => "?"
+
+def parseRow (tok : String) : Option SnapG.Row :=
+  match tok.splitOn ";" with
+  | [t, k, p, c, m, a] => do
+      let aux ← if a == "1" then some true else if a == "0" then some false else none
+      pure ⟨← tabOf t, ← decB k, ← decS p, ← c.toNat?, ← m.toNat?, aux⟩
+  | _ => none
+
+def encRows (l : List SnapG.Row) : String :=
+  encList (l.map fun r => tabName r.tab ++ ";" ++ encB r.key ++ ";" ++ encS r.payload ++ ";" ++ toString r.create ++ ";" ++
+    toString r.modify ++ ";" ++ (if r.aux then "1" else "0"))
+
+def stepTables (i e l : String) : String :=
+  match (decList i).mapM parseIdx, (decList e).mapM parseRow, (decList l).mapM parseRow with
+  | some idx, some rows, some late =>
+    let st : SnapG.State := ⟨idx, rows, late⟩
+    let sn := SnapG.snapshot st
+    let r := SnapG.restore sn
+    s!"last={sn.last} idx={encIdx r.index} rows={encRows r.rows} late={encRows r.late} kinds={encList (SnapG.kindSeq sn.recs)}"
+  | _, _, _ => "bad-op"
+
+end TablesTie
+
 def step (_ : Unit) (toks : List String) : Unit × String :=
   match toks with
   | ["rt", i, k, t, s, p, b] =>
@@ -151,6 +191,7 @@ def step (_ : Unit) (toks : List String) : Unit × String :=
       ((), s!"last={sn.last} idx={encIdx r.index} kvs={encKVs r.kvs} tombs={encTombs r.tombs} sess={encSess r.sessions} sc={encSC r.sessionChecks} peer={encLate r.peerings} tb={encLate r.bundles} stream={encRuns (kindRuns sn.recs)} usage={usage}")
     | _, _, _, _, _, _ => ((), "bad-op")
   | ["rts", n, v, c, x, k, t, q, i] => ((), stepStore n v c x k t q i)
+  | ["rtg", i, e, l] => ((), stepTables i e l)
   | _ => ((), "bad-op")
 
 def engine : Engine := { State := Unit, init := (), step := step }
